@@ -1,3 +1,59 @@
-(* Props/C06.v — property C06 (work in progress). *)
+(* Props/C06.v — property C06: every acknowledgement written is itself a complete, well-formed interchange.
+   Statements only.  Proofs: Proofs/C06_lemmas.v, C06_build.v, C06_ack997.v, C06_ack999.v, C06_ack.v.
+
+   What is proved, for EVERY error-handler state h (any number of interchanges, groups, sets, segment and element
+   errors, echoed values of any content) whenever the visitor completes: the lines written are the lines of a list of
+   segments that passes the independent recount of Spec/C06_spec.v — one ISA with 16 elements, one GS, transaction
+   sets numbered 0001.. each with SE01 = number of segments actually in the set and SE02 = ST02, GE01 = number of
+   sets, GE02 = GS06, optional TA1, IEA01 = 1, IEA02 = ISA13.
+   Hypotheses: the clock strings are digits (they come from time.strftime); for the 997 only, gs06_ok: the echoed GS06
+   of the group the envelope is built from does not contain '*' and does not end in '~' (the 997 builds GE as text and
+   re-parses it).  Both are shown necessary by machine-checked counterexamples.
+   PARTIAL: not proved here — that the text re-read by the reader draws no envelope error (follows from this recount
+   plus the C04/C01 theorems only when every echoed value is free of the acknowledgement's delimiters: recorded
+   finding C06-echo-splits-element), the element count of the TEXT of the 997's ISA (finding: empty ISA15), the case
+   where the visitor raises (swallowed by x12n_document: the acknowledgement is cut short), and that the
+   acknowledgement re-validates.  Those are the subject of the oracle of the check. *)
 From Coq Require Import String.
-From PX.Lib Require Import Base.
+From PX.Lib Require Import Base PyStr.
+From PX.Model Require Import Path Segment Errh Writer Ack997 Ack999.
+From PX.Spec Require Import C06_spec.
+From PX.Proofs Require Import C06_ack997 C06_ack999 C06_ack.
+
+Theorem C06_997_envelope_recount :
+  forall ck h h' lines,
+    clock_digits ck = true -> gs06_ok h = true ->
+    render_997 ck h = (h', lines, None) ->
+    exists segs, lines = map line_997 segs /\ envelope_ok segs = true.
+Proof. exact ack997_envelope_real_clock. Qed.
+Print Assumptions C06_997_envelope_recount.
+
+Theorem C06_999_envelope_recount :
+  forall ck h h' lines,
+    clock_digits ck = true ->
+    render_999 ck h = (h', lines, None) ->
+    exists segs, lines = map line_999 segs /\ envelope_ok segs = true.
+Proof. exact ack999_envelope_real_clock. Qed.
+Print Assumptions C06_999_envelope_recount.
+
+(* the hypothesis on GS06 is needed: a group control number "1~" (legal text when the source uses other delimiters)
+   gives lines that NO segment list passing the recount can have *)
+Theorem C06_997_needs_clean_gs06 :
+  clock_digits cex_ck = true /\ gs06_ok cex_h = false /\
+  (exists h', render_997 cex_ck cex_h = (h', cex_lines, None)) /\
+  (forall segs, cex_lines = map line_997 segs -> envelope_ok segs = false).
+Proof.
+  destruct cex997_run as (A & B & C). split; [exact A|]. split; [exact B|]. split; [exact C|]. exact cex997_no_witness.
+Qed.
+Print Assumptions C06_997_needs_clean_gs06.
+
+(* the 997 writes an ISA of 15 elements when the acknowledged ISA15 is empty (the 999 does not) *)
+Theorem C06_997_short_isa_when_isa15_empty :
+  (exists h' rest, render_997 cex_ck isa15_h =
+     (h', list_ascii_of_string "ISA*00*          *00*          *ZZ*RECEIVER       *ZZ*SENDER         *260101*1200*^*00501*601011200*0*:~
+" :: rest, None)) /\
+  (exists h' rest, render_999 cex_ck isa15_h =
+     (h', list_ascii_of_string "ISA*00*          *00*          *ZZ*RECEIVER       *ZZ*SENDER         *260101*1200*^*00501*601011200*0**:~
+" :: rest, None)).
+Proof. exact isa15_empty_short_line. Qed.
+Print Assumptions C06_997_short_isa_when_isa15_empty.
